@@ -173,3 +173,111 @@ class PlacementLoop(object):
 
     def body(self):
         return K.loop_body_nodes(self.head)
+
+
+def placement_mutators(index):
+    """Names of scheduler-module routines that may change an instance's
+    server or expiry: those assigning <x>.server / <x>.placement_expiry, and
+    (fixed point) those calling a routine of such a name."""
+    mod = index.module(K.SCHED)
+    funcs = []
+    for cls in mod.classes.values():
+        funcs.extend(cls.live_methods())
+    funcs.extend(mod.live_functions())
+    names = set()
+    for func in funcs:
+        for sub in K.walk_no_nested(func.node):
+            tgts = sub.targets if isinstance(sub, ast.Assign) else (
+                [sub.target] if isinstance(sub, ast.AugAssign) else [])
+            for tgt in tgts:
+                if isinstance(tgt, ast.Attribute) and \
+                        tgt.attr in ('server', 'placement_expiry') and \
+                        func.name != '__init__':
+                    names.add(func.name)
+    changed = True
+    while changed:
+        changed = False
+        for func in funcs:
+            if func.name in names or func.name == '__init__':
+                continue
+            for sub in K.walk_no_nested(func.node):
+                if isinstance(sub, ast.Call) and \
+                        isinstance(sub.func, ast.Attribute) and \
+                        sub.func.attr in names:
+                    names.add(func.name)
+                    changed = True
+                    break
+    return names
+
+
+def snapshot_brackets(ctx, rule):
+    """Cell.schedule() reports every change: its before-snapshot is taken
+    before, its after-snapshot after every routine that may change a
+    placement, both over the same list, and the result pairs them."""
+    cell = ctx.index.get_class(K.SCHED, 'Cell')
+    func = cell.methods.get('schedule')
+    ctx.require(func is not None, 'Cell.schedule')
+    graph = ctx.cfg(func)
+    snaps = []
+    for node in graph.nodes:
+        if node.kind == 'stmt' and isinstance(node.ast, ast.Assign) and \
+                isinstance(node.ast.value, ast.ListComp) and \
+                isinstance(node.ast.targets[0], ast.Name):
+            comp = node.ast.value
+            var = N.txt(comp.generators[0].target)
+            reads = set(N.txt(s) for s in ast.walk(comp.elt)
+                        if isinstance(s, ast.Attribute))
+            if '%s.server' % var in reads and \
+                    '%s.placement_expiry' % var in reads:
+                snaps.append((node, comp, var, reads))
+    ctx.require(len(snaps) == 2, 'before/after snapshots in Cell.schedule '
+                                 '(found %d)' % len(snaps))
+    order = C.reach_after(snaps[0][0], edge_ok=C.no_exc)
+    if snaps[1][0] not in order:
+        snaps.reverse()
+    (bnode, bcomp, bvar, breads), (anode, acomp, _avar, _ar) = snaps
+    ctx.ob(rule, func, bnode,
+           N.txt(bcomp.generators[0].iter) ==
+           N.txt(acomp.generators[0].iter) and
+           not bcomp.generators[0].ifs and not acomp.generators[0].ifs and
+           '%s.name' % bvar in breads,
+           'both snapshots range over the same unfiltered list and the '
+           'first carries the instance name',
+           construct='snapshot domains')
+    names = placement_mutators(ctx.index)
+    ctx.require('remove' in names and 'put' in names,
+                'placement mutators of the scheduler')
+    changers = [n for n in graph.nodes for c in C.node_calls(n)
+                if isinstance(c.func, ast.Attribute) and
+                c.func.attr in names]
+    ctx.require(len(changers) >= 3, 'placement-changing calls in '
+                                    'Cell.schedule')
+    for node in changers:
+        before_ok = K.guarded_by(graph, node, lambda e: e.src is bnode)
+        after_ok = node not in C.reach_after(anode, edge_ok=C.no_exc)
+        ctx.ob(rule, func, node, before_ok and after_ok,
+               'a routine that may change placements runs between the '
+               'before- and the after-snapshot, so the change is reported '
+               'and published' if before_ok and after_ok else
+               'a routine that may change placements runs outside the '
+               'before/after snapshots: its changes are not reported, the '
+               'stored records keep the old server',
+               construct='%s inside the snapshots' % node.text(50))
+    rets = [n for n in graph.nodes if n.kind == 'return' and
+            n.ast.value is not None]
+    defs = {}
+    for sub in K.walk_no_nested(func.node):
+        if isinstance(sub, ast.Assign) and \
+                isinstance(sub.targets[0], ast.Name):
+            defs.setdefault(sub.targets[0].id, []).append(sub.value)
+    bname = bnode.ast.targets[0].id
+    aname = anode.ast.targets[0].id
+    for ret in rets:
+        val = ret.ast.value
+        vals = defs.get(val.id, [val]) if isinstance(val, ast.Name) else [val]
+        txt = ' '.join(N.txt(v) for v in vals)
+        ctx.ob(rule, func, ret,
+               'zip(%s, %s)' % (bname, aname) in txt.replace(
+                   'six.moves.zip', 'zip'),
+               'the result pairs the two snapshots position by position',
+               construct='result = zip(before, after)')
